@@ -103,6 +103,59 @@ def run(ctx):
                     capped = True
     ctx.ob('ADMIT-GATE', 'try_consume:refill-capped', capped, tc.where(), 'tokens = min(tokens, burst_size) dominates the budget test: %s' % capped)
 
+    # every write of the token budget is one of: earned refill (tokens + elapsed-time x rate), the cap at burst, the
+    # consumption of one token. A reset to a constant / to burst, or replacing the bucket as a whole (`*self = ..`) at a
+    # window roll-over, hands out budget that was never earned.
+    def _is_tokens(e):
+        return e.strip().show().endswith('.tokens')
+
+    def _earned(e):
+        return any(x.k == 'call' and re.search(r'Instant::(duration_since|elapsed|saturating_duration_since)$|Duration::as_secs_f(64|32)$', x.a) for x in e.walk())
+
+    def _classify(e):
+        st = e.strip()
+        if st.k == 'bin' and st.a == 'Sub' and _is_tokens(st.b) and st.c.const_value() == 1.0:
+            return 'consume'
+        if st.k == 'bin' and st.a == 'Add' and ((_is_tokens(st.b) and _earned(st.c)) or (_is_tokens(st.c) and _earned(st.b))):
+            return 'refill'
+        if st.k == 'call' and re.search(r'f64.*::min$', st.a) and len(st.b) == 2:
+            a0, a1 = st.b
+            for x, y in ((a0, a1), (a1, a0)):
+                if 'burst_size' in y.show() and (_is_tokens(x) or _classify(x) == 'refill'):
+                    return 'cap'
+        if st.k == 'call' and re.search(r'f64.*::clamp$', st.a) and len(st.b) == 3 and 'burst_size' in st.b[2].show() and (_is_tokens(st.b[0]) or _classify(st.b[0]) == 'refill'):
+            return 'cap'
+        return None
+    nkinds = {}
+    for b, bi, k, th in writes_tok:
+        if k == 'assign':
+            e = F.Expr.of_rvalue(b, th['r'], 30)
+        elif k == 'call-dest':
+            cs_ = F.CallSite(b, bi, th)
+            e = F.Expr('call', cs_.callee, [F.Expr.of_operand(b, a, 30) for a in cs_.args], cs_)
+        else:
+            e = None
+        kind = _classify(e) if e is not None else None
+        nkinds[kind] = nkinds.get(kind, 0) + 1
+        if kind is None:
+            n = sum(1 for o in ctx.obls if o.key.startswith('try_consume:tokens-write'))
+            ctx.ob('ADMIT-GATE', 'try_consume:tokens-write#%d' % n, False, tc.where(th.get('ln')),
+                   'tokens is written with %s: neither the time-earned refill, nor the cap at burst, nor the consumption of one token — '
+                   'budget appears that was not earned' % (e.brief(80) if e is not None else 'a mutable borrow handed out'))
+    # the bucket replaced as a whole through `*self = ..`
+    whole = []
+    for bi, si, st_ in tc.stmts():
+        d = st_['d']
+        if len(d) == 2 and d[1] == '*' and tc.local_ty(d[0]).replace('&mut ', '') == BUCKET:
+            whole.append((bi, st_.get('ln')))
+    for bi, t_ in tc.terms():
+        d = t_.get('d') if t_['k'] == 'call' else None
+        if d and len(d) == 2 and d[1] == '*' and tc.local_ty(d[0]).replace('&mut ', '') == BUCKET:
+            whole.append((bi, t_.get('ln')))
+    ctx.ob('ADMIT-GATE', 'try_consume:tokens-writes-classified', not whole and None not in nkinds and nkinds.get('consume', 0) == 1, tc.where(whole[0][1] if whole else None),
+           ('token writes: %s; the bucket is never replaced as a whole' % dict((k, v) for k, v in nkinds.items() if k)) if not whole else
+           'try_consume replaces the bucket as a whole (`*self = ..`, line %s): the token budget restarts (at burst) although nothing was earned — a second full burst is admitted' % whole[0][1])
+
     # ---- 2. table: JoinRateLimiter::new wiring
     nb = prog.inl(JRL + '::new', keep=r'Engine::<.*>::new$|Bucket::new$')
     ctx.touch(nb)
